@@ -50,6 +50,7 @@ type Contract struct {
 	opaque   bool // never inline, never look inside (callers havoc the inferred frame)
 	pure     bool
 	noframe  bool
+	keeps    []string
 	used     bool
 }
 
@@ -277,6 +278,13 @@ func (cs *ContractSet) LoadFile(pkgPath, path string) error {
 				if len(cur.nopanic) == 0 {
 					cur.nopanic = []string{"-"}
 				}
+			} else if strings.HasPrefix(t, "keeps ") {
+				// trusted partial frame: the callee does not modify the listed heap classes as
+				// far as the caller can observe (everything else follows the inferred frame)
+				for _, k := range strings.Split(strings.TrimPrefix(t, "keeps "), ",") {
+					cur.keeps = append(cur.keeps, strings.TrimSpace(k))
+				}
+				cur.opaque = true
 			} else if t == "inline" {
 				cur.inline = true
 			} else if t == "trusted" {
